@@ -263,6 +263,14 @@ public:
         return input_ptr_ == input_end_;
     }
 
+#ifdef JSONCONS_VERIF
+    // verification hook (off by default): the state in which the incremental parser is suspended
+    std::string verif_suspend_state() const
+    {
+        return std::to_string(static_cast<int>(state_)) + "/" + std::to_string(static_cast<int>(string_state_)) + "/" + std::to_string(static_cast<int>(number_state_));
+    }
+#endif
+
     const char_type* current() const
     {
         return input_ptr_;
